@@ -1085,7 +1085,10 @@ func HandleDisconnectUser(cc *hotline.ClientConn, t *hotline.Transaction) (res [
 	// 00 01 = temporary ban
 	// 00 02 = permanent ban
 	if t.GetField(hotline.FieldOptions).Data != nil {
-		switch t.GetField(hotline.FieldOptions).Data[1] {
+		// The option is an integer field, which clients send in two or in four bytes.
+		banOption, _ := t.GetField(hotline.FieldOptions).DecodeInt()
+
+		switch banOption {
 		case 1:
 			// send message: "You are temporarily banned on this server"
 			cc.Logger.Info("Disconnect & temporarily ban " + string(clientConn.UserName))
